@@ -65,7 +65,10 @@ def census(text, metas=()):
             for j in range(i, min(i + 6, len(lines))):
                 m = re.search(r'\bfn\s+(\w+)', lines[j])
                 if m:
-                    if m.group(1) in imported:
+                    pg = re.search(r'/\* proved in group (\w+) \*/', s)
+                    if pg:
+                        items.append('lemma %s imported without its proof (proved in group %s)' % (m.group(1), pg.group(1)))
+                    elif m.group(1) in imported:
                         items.append(imported[m.group(1)])
                     else:
                         items.append('external_body: %s' % m.group(1))
